@@ -65,8 +65,26 @@ def seed_tag(rng):
 
 
 def real_fmt(fmt):
-    """The format name iodata knows for a row of the Stores table (QCSchema has three document kinds in one module)."""
+    """The format name iodata knows for a row of the Stores table (QCSchema has three document kinds in one module; XYZ with
+    user-defined atom columns is the XYZ module with an extra argument)."""
+    if fmt == "xyz_columns":
+        return "xyz"
     return "json_qcschema" if fmt.startswith("json_qcschema") else fmt
+
+
+def io_kwargs(fmt):
+    """Extra keyword arguments given to both dump_one and load_one for this row of the table."""
+    if fmt != "xyz_columns":
+        return {}
+    from iodata.formats.xyz import DEFAULT_ATOM_COLUMNS
+    # the example of the module documentation, with two keyed columns of the same dictionary attribute
+    return {"atom_columns": DEFAULT_ATOM_COLUMNS + [
+        ("atcharges", "mulliken", (), float, float, "{:10.5f}".format),
+        ("atgradient", None, (3,), float, (lambda word: -float(word)), (lambda value: "{:15.10f}".format(-value))),
+        ("atcharges", "hirshfeld", (), float, float, "{:10.5f}".format),
+        ("atmasses", None, (), float, float, "{:12.4f}".format),
+        ("atffparams", "attypes", (), "U8", str, "{:>6s}".format),
+    ]}
 
 
 def elements(rng, natom, pool=None):
@@ -75,7 +93,8 @@ def elements(rng, natom, pool=None):
 
 
 def chain_bonds(natom, types, extra_long=False):
-    b = [[i, i + 1, types[i % len(types)]] for i in range(natom - 1)]
+    # every third bond is given as (higher index, lower index): the order of the two atoms of a bond is the caller's choice
+    b = [([i + 1, i] if i % 3 == 1 else [i, i + 1]) + [types[i % len(types)]] for i in range(natom - 1)]
     if extra_long and natom > 101:
         b += [[0, 100, types[0]], [99, natom - 1, types[1 % len(types)]], [101, min(110, natom - 1), types[2 % len(types)]]]
     return np.array(b, dtype=int).reshape(-1, 3)
@@ -91,6 +110,9 @@ def build(fmt, rng, natom, present, mag):
         kw = dict(atnums=elements(rng, natom), atcoords=tag_coords(natom, mag, digits, ANG))
         if "title" in P:
             kw["title"] = f"tagged {fmt} molecule {natom} {rng.randint(0, 999)}"
+        if fmt == "pdb" and "title" in P and natom % 3 != 1:
+            # TITLE / COMPND records continue over numbered lines (continuation counter in columns 9-10)
+            kw["title"] = "\n".join(f"TITLE LINE {k} OF {natom}" for k in range(1, (12 if natom % 3 == 0 else 3) + 1))
         if "bonds" in P and natom >= 2:
             types = {"sdf": [1, 2, 3, 4, 5, 6, 7, 8], "mol2": [1, 2, 3, 4, 9, 10, 8, 11], "pdb": [1, 2, 3]}.get(fmt, [1])
             kw["bonds"] = chain_bonds(natom, types, extra_long=True)
@@ -112,7 +134,7 @@ def build(fmt, rng, natom, present, mag):
         if "extra.chainids" in P:
             ex["chainids"] = np.array([["A", "B", "C"][i % 3] for i in range(natom)])
         if "extra.compound" in P:
-            ex["compound"] = "TAGGED COMPOUND"
+            ex["compound"] = "TAGGED COMPOUND" if natom % 2 else "\n".join(f"MOL_ID: {k};" for k in range(1, 15))
         if ff:
             kw["atffparams"] = ff
         if ex:
@@ -176,6 +198,16 @@ def build(fmt, rng, natom, present, mag):
             kw["bonds"] = chain_bonds(natom, [1, 2, 3])
         if "g_rot" in P:
             kw["g_rot"] = 2.0
+        return IOData(**kw)
+    if fmt == "xyz_columns":
+        kw = dict(atnums=elements(rng, natom), atcoords=tag_coords(natom, mag, 10, ANG),
+                  atcharges={"mulliken": np.array([round((-1) ** i * (0.1 + 0.001 * (i % 700)), 5) for i in range(natom)]),
+                             "hirshfeld": np.array([round((-1) ** (i + 1) * (0.3 + 0.001 * (i % 600)), 5) for i in range(natom)])},
+                  atgradient=tag_coords(natom, "mixed", 10, 1.0) * 0.01,
+                  atmasses=np.array([round(1.0 + 0.37 * (i % 250), 4) for i in range(natom)]),
+                  atffparams={"attypes": np.array([f"T{i % 97}" for i in range(natom)])})
+        if "title" in P:
+            kw["title"] = f"tagged xyz columns {natom}"
         return IOData(**kw)
     if fmt in ("json_qcschema_input", "json_qcschema_output"):
         # the layout of `extra` documented in json_qcschema.py: molecule / input / output sub-dictionaries
@@ -261,7 +293,7 @@ def build(fmt, rng, natom, present, mag):
 
 
 OPTIONAL = {
-    "xyz": ["title"], "sdf": ["title", "bonds"],
+    "xyz": ["title"], "xyz_columns": ["title"], "sdf": ["title", "bonds"],
     "mol2": ["title", "bonds", "atcharges.mol2charges", "atffparams.attypes"],
     "pdb": ["title", "bonds", "extra.occupancies", "extra.bfactors", "extra.chainids", "atffparams.attypes", "atffparams.restypes",
             "atffparams.resnums", "extra.compound"],
@@ -276,7 +308,8 @@ OPTIONAL = {
     "molden": ["title"], "molekel": ["atcharges.mulliken"], "wfn": ["title", "energy"], "wfx": ["title", "atgradient"],
 }
 ALWAYS = {
-    "xyz": ["atnums", "atcoords"], "sdf": ["atnums", "atcoords"], "mol2": ["atnums", "atcoords"], "pdb": ["atnums", "atcoords"],
+    "xyz": ["atnums", "atcoords"],
+    "xyz_columns": ["atnums", "atcoords", "atcharges.mulliken", "atcharges.hirshfeld", "atgradient", "atmasses", "atffparams.attypes"], "sdf": ["atnums", "atcoords"], "mol2": ["atnums", "atcoords"], "pdb": ["atnums", "atcoords"],
     "poscar": ["atnums", "atcoords", "cellvecs"], "cube": ["atnums", "atcoords", "cube.origin", "cube.axes", "cube.data"],
     "fcidump": ["one_ints.core_mo", "two_ints.two_mo"], "json_qcschema": ["atnums", "atcoords", "charge", "spinpol"],
     "json_qcschema_input": ["atnums", "atcoords", "charge", "spinpol", "lot", "obasis_name", "extra.input.driver"],
@@ -290,7 +323,7 @@ ALWAYS = {
                 "obasis.exponents", "obasis.coeffs"],
     "wfn": ["atnums", "atcoords", "mo.occs", "mo.energies"], "wfx": ["atnums", "atcoords", "atcorenums", "energy", "mo.occs", "mo.energies"],
 }
-SIZES = {"xyz": [1, 2, 9, 10, 99, 100, 999, 1000, 9999, 10000, 12000], "sdf": [1, 2, 9, 10, 99, 100, 101, 500, 999],
+SIZES = {"xyz": [1, 2, 9, 10, 99, 100, 999, 1000, 9999, 10000, 12000], "xyz_columns": [1, 2, 3, 10, 100, 1000], "sdf": [1, 2, 9, 10, 99, 100, 101, 500, 999],
          "mol2": [1, 2, 9, 10, 99, 100, 999, 1000, 9999, 10000], "pdb": [1, 2, 9, 10, 99, 100, 999, 1000, 9999, 10000, 12000],
          "poscar": [1, 2, 5, 8, 30], "cube": [1, 2, 3, 4, 5, 6, 12], "fcidump": [1, 2, 3, 4, 5], "json_qcschema": [1, 2, 9, 10, 100, 1000],
          "json_qcschema_input": [1, 2, 3, 4, 5, 6, 7, 12], "json_qcschema_output": [1, 2, 3, 4, 5, 6, 7, 12],
@@ -315,12 +348,12 @@ def roundtrip(task):
             obj = build(fmt, rng, natom, present, mag)
             path = os.path.join(tmp, O.SUFFIX[real_fmt(fmt)])
             try:
-                api.dump_one(obj, path, fmt=real_fmt(fmt))
+                api.dump_one(obj, path, fmt=real_fmt(fmt), **io_kwargs(fmt))
             except Exception as exc:  # noqa: BLE001
                 ev["dump"] = classify_exc(exc) + ":" + str(exc.__cause__ or exc)[:80].replace(tmp, "")
                 return ev
             try:
-                back = api.load_one(path, fmt=real_fmt(fmt))
+                back = api.load_one(path, fmt=real_fmt(fmt), **io_kwargs(fmt))
             except Exception as exc:  # noqa: BLE001
                 ev["load"] = classify_exc(exc) + ":" + str(exc.__cause__ or exc)[:80].replace(tmp, "")
                 return ev
